@@ -117,6 +117,50 @@ def scenario(FileLock, install, choose, advance, raises, nretry=2):
         install(None, None, None)
 
 
+def ww_scenario(UidList, install, kind, text, raises):
+    """`async with UidList.with_write(path)` on a dovecot-uidlist whose header (kind 'header') or first record
+    line (kind 'record') is `text`, or that does not exist (kind 'absent'); the body raises if `raises`.
+    Whatever happens the lock file must be gone afterwards.  returns error|None"""
+    from checks.c04_maildir import MemFS
+    fs = MemFS(lambda: 0)
+    install(fs, lambda: 0, lambda d: _Sleep(d))
+    try:
+        path = '/m/D'
+        if kind == 'header':
+            fs.files[UidList.get_file(path)] = [text]
+        elif kind == 'record':
+            fs.files[UidList.get_file(path)] = ['3 V7 N5 G%s\r\n' % ('0' * 32), text]
+        out = []
+        held_at_exit = []
+
+        async def body():
+            try:
+                async with UidList.with_write(path) as ul:
+                    if raises:
+                        raise KeyError('boom')
+                    ul.next_uid += 1
+                    ul.touch()
+                out.append('ok')
+            except Exception as exc:      # noqa: BLE001 - parse errors, the body's own error
+                out.append(type(exc).__name__)
+                # observed at the moment the statement is left, while the exception is still alive (afterwards
+                # the garbage collector may finalise an abandoned lock generator and hide a missing release)
+                held_at_exit.append(UidList.get_lock(path) in fs.files)
+        co = body()
+        for _ in range(40):
+            try:
+                co.send(None)
+            except StopIteration:
+                break
+        else:
+            return 'with_write did not finish'
+        if UidList.get_lock(path) in fs.files or any(held_at_exit):
+            return "with_write ended with %s and the lock file is still there" % out[0]
+        return None
+    finally:
+        install(None, None, None)
+
+
 def main(tier):
     from pysymex import loader
     loader.install()
@@ -202,12 +246,92 @@ def main(tier):
     out['queries'] = st['feasibility_queries'] + st['proof_unsat'] + st['proof_sat']
     if eng.pending:
         out['errors'].append('path tree not exhausted')
+    # ---- part 2b: the lock taken by FileWriteable.with_write (maildir control files) is released on every exit
+    from pymap.backend.maildir.uidlist import UidList
+    from pysymex import fresh_str
+
+    def install2(fs, clock, sleep):
+        loader.FS_HOOK[0] = fs
+        loader.ENV_HOOK['clock'] = clock
+        loader.ENV_HOOK['sleep'] = sleep
+    nmax = 5 if tier == 'quick' else 8
+    out['bounds']['with_write_text_chars'] = nmax
+    for kind in ('absent', 'header', 'record'):
+        for n in ([0] if kind == 'absent' else range(0, nmax + 1)):
+            def fn2(eng, kind=kind, n=n):
+                text = fresh_str(eng, 't', n, hi=0x7f) if kind != 'absent' else ''
+                raises = eng.flip('body_raises')
+                err = ww_scenario(UidList, install2, kind, text, raises)
+                wit = lambda m: {'obligation': 'with_write', 'kind': kind, 'raises': raises,  # noqa: E731
+                                 'text': ''.join(map(chr, text.concrete(m))) if kind != 'absent' else ''}
+                return Outcome(err is None, witness=wit, info=err)
+            eng2 = Engine()
+            eng2.sample_every = 25
+            try:
+                for rec in eng2.explore(fn2, max_paths=200000):
+                    if rec['status'] == 'cex':
+                        r = replay(rec['witness'])
+                        if r['violates']:
+                            w = dict(rec['witness'])
+                            w['real_outcome'] = r['detail']
+                            out['violations'].append(w)
+                        else:
+                            out['errors'].append('counterexample does not reproduce: %s' % json.dumps(rec['witness'])[:200])
+                        out['validated'] += 1
+                    elif rec['status'] == 'proved':
+                        out['proved'] += 1
+                        if rec.get('sample') is not None:
+                            r = replay(rec['sample'])
+                            if r['violates']:
+                                out['errors'].append('proved path violates concretely: %s' % json.dumps(rec['sample'])[:200])
+                            out['validated'] += 1
+                    else:
+                        out['errors'].append('with_write %s[%d]: %s %s' % (kind, n, rec['status'], str(rec.get('info'))[:200]))
+            except Unsupported as exc:
+                out['errors'].append('Unsupported: %s' % exc)
+            st2 = eng2.stats()
+            out['paths'] += st2['paths']
+            out['queries'] += st2['feasibility_queries'] + st2['proof_unsat'] + st2['proof_sat']
+            if eng2.pending:
+                out['errors'].append('with_write path tree not exhausted')
     print(json.dumps(out, default=str))
     return 0
 
 
+def replay_ww(w):
+    import types
+    import pymap.concurrent as C
+    import pymap.backend.maildir.io as IO
+    from pymap.backend.maildir.uidlist import UidList
+    saved = (C.os, C.time, C.asyncio, IO.os, IO.NamedTemporaryFile)
+
+    def install(fs, clock, sleep):
+        if fs is None:
+            C.os, C.time, C.asyncio, IO.os, IO.NamedTemporaryFile = saved
+            C.__dict__.pop('open', None)
+            IO.__dict__.pop('open', None)
+            return
+        import os as _os
+        pathns = types.SimpleNamespace(**{k: getattr(_os.path, k) for k in ('join', 'split', 'basename', 'dirname')})
+        pathns.exists = fs.path_exists
+        o = types.SimpleNamespace(stat=fs.stat, unlink=fs.unlink, remove=fs.remove, rename=fs.rename, path=pathns)
+        C.os = o
+        IO.os = o
+        C.time = types.SimpleNamespace(time=clock)
+        a = types.SimpleNamespace(**{k: v for k, v in vars(saved[2]).items() if not k.startswith('__')})
+        a.sleep = sleep
+        C.asyncio = a
+        C.open = fs.open
+        IO.open = fs.open
+        IO.NamedTemporaryFile = fs.named_temp
+    err = ww_scenario(UidList, install, w['kind'], w['text'], w['raises'])
+    return {'violates': err is not None, 'detail': err}
+
+
 def replay(w):
     """concrete run of the same schedule on the uninstrumented FileLock (module attributes patched)"""
+    if w.get('obligation') == 'with_write':
+        return replay_ww(w)
     import pymap.concurrent as C
     import builtins
     FileLock = C.FileLock
